@@ -15,21 +15,21 @@ import (
 )
 
 type FuncResult struct {
-	Pkg        string
-	Key        string
-	Name       string
-	Obls       []*Obligation
-	Script     *Script
-	Notes      map[string]int
-	Trusted    map[string]int
-	Inlined    map[string]int
-	Err        string // translation failure
-	ErrPos     string
-	Missing    bool
-	Contract   *FuncContract
-	IsLemma    bool
-	Replay     *replayInfo
-	Prog       *Program
+	Pkg      string
+	Key      string
+	Name     string
+	Obls     []*Obligation
+	Script   *Script
+	Notes    map[string]int
+	Trusted  map[string]int
+	Inlined  map[string]int
+	Err      string // translation failure
+	ErrPos   string
+	Missing  bool
+	Contract *FuncContract
+	IsLemma  bool
+	Replay   *replayInfo
+	Prog     *Program
 }
 
 func newExec(prog *Program, name string) *Exec {
